@@ -17,6 +17,8 @@ import (
 	"time"
 	"testing"
 
+	"github.com/gobwas/glob"
+
 	"github.com/sourcegraph/zoekt"
 	"github.com/sourcegraph/zoekt/ignore"
 	"github.com/sourcegraph/zoekt/index"
@@ -99,7 +101,11 @@ func vfC15GenDir(r *vfRand, depth int, sizeMax int, outside string, rootAbs stri
 			nd.Data = vfC15GenData(r, sizeMax)
 		case c < 65:
 			nd.Kind = 1
-			switch k := r.Intn(9); k {
+			switch k := r.Intn(12); k {
+			case 9:
+				nd.Data, nd.What = []byte(r.Pick([]string{"./main.go", "src/../main.go", "a//b", "src/", "./"})), "unclean-target"
+			case 10:
+				nd.Data, nd.What = []byte("../"+filepath.Base(rootAbs)+"/README.md"), "via-parent"
 			case 0:
 				nd.Data, nd.What = []byte("main.go"), "sibling"
 			case 1:
@@ -522,18 +528,24 @@ func TestVerifC15(t *testing.T) {
 				t.Fatalf("case %d: reading shards: %v", i, err)
 			}
 		}
-		// ---- verdicts of the real matcher for the intended patterns on every path of the tree
-		intended, perr := ignore.ParseIgnoreFile(strings.NewReader(igContent))
-		if perr != nil {
+		// ---- verdicts of the real glob engine: (pattern, path) pairs that match, for the harness' own reading of the
+		// intended ignore content (the Coq model derives its patterns itself, Model/IgnoreFile.v) and every path of the tree
+		if _, perr := ignore.ParseIgnoreFile(strings.NewReader(igContent)); perr != nil {
 			t.Fatalf("case %d: generator produced an invalid pattern: %v", i, perr)
 		}
 		var paths []string
 		nodes, links := 0, 0
 		vfC15AllPaths("", ch, &paths, &nodes, &links)
 		var matched []string
-		for _, p := range paths {
-			if intended.Match(p) {
-				matched = append(matched, cStr(p))
+		for _, pat := range vfC15IgnorePatterns(igContent) {
+			g, gerr := glob.Compile(pat, '/')
+			if gerr != nil {
+				t.Fatalf("case %d: pattern %q does not compile: %v", i, pat, gerr)
+			}
+			for _, p := range paths {
+				if g.Match(p) {
+					matched = append(matched, cPair(cStr(pat), cStr(p)))
+				}
 			}
 		}
 		// ---- Go-side oracle: the property itself, from the file system
@@ -630,6 +642,29 @@ func TestVerifC15(t *testing.T) {
 			map[string]any{"nodes": nodes, "links": links, "docs": len(docs), "ignore_file": igMode, "matched": len(matched), "result": code})
 		os.RemoveAll(caseDir)
 	}
+}
+
+// vfC15IgnorePatterns: the documented reading of an ignore file (one glob per line relative to the root, blank lines and
+// '#' comments skipped, a leading '/' dropped, "**" appended to lines without glob characters), written independently
+// of ignore.ParseIgnoreFile.
+func vfC15IgnorePatterns(content string) []string {
+	lines := strings.Split(content, "\n")
+	if len(lines) > 0 && lines[len(lines)-1] == "" {
+		lines = lines[:len(lines)-1]
+	}
+	var out []string
+	for _, l := range lines {
+		l = strings.Trim(l, " \t\r\n\v\f")
+		if l == "" || l[0] == '#' {
+			continue
+		}
+		l = strings.TrimPrefix(l, "/")
+		if !strings.ContainsAny(l, ".][*?") {
+			l += "**"
+		}
+		out = append(out, l)
+	}
+	return out
 }
 
 func vfC15CountLeaves(ch []*vfC15Node) int {
